@@ -35,6 +35,7 @@ class FuncRun(ExprMixin, InstrMixin, CallMixin):
         self.obls = []
         self.mute = 0
         self.recorders = []
+        self.key_recorders = []
         self.frame_counter = 0
         self.regs = {}
         self.heap0 = {}
@@ -50,6 +51,7 @@ class FuncRun(ExprMixin, InstrMixin, CallMixin):
         self.rec_defs = []
         self.rec_depth = 0
         self.strconsts = {}
+        self.iface_static = {}
         self.alloc_refs = []
         self.param_refs = []
         self.ghost_cells = {}
@@ -121,9 +123,19 @@ class FuncRun(ExprMixin, InstrMixin, CallMixin):
         o = Obligation(name, 'cover', self.fn['name'], what, pos, len(self.hyps), T.not_(state.pc), expect_sat=True)
         self.obls.append(o)
 
-    def record_write(self, what):
+    def record_write(self, what, key=None):
         for r in self.recorders:
             r.add(what)
+        if what[0] == 'heap':
+            for kr in self.key_recorders:
+                cur = kr.get(what[1], set())
+                if cur is None:
+                    continue
+                if key is None:
+                    kr[what[1]] = None
+                else:
+                    cur.add(key)
+                    kr[what[1]] = cur
 
     def abstract(self, what):
         if not self.mute and what not in self.abstracted:
@@ -148,6 +160,8 @@ class FuncRun(ExprMixin, InstrMixin, CallMixin):
 
     def heap_loc(self, ptr):
         """-> (name prefix, keys, storage type name)"""
+        if ptr.kind == 'box' and ptr.c is not None:
+            ptr = PtrV('box', ptr.a, ptr.b, None, ptr.path)
         if ptr.kind == 'field':
             fname = ptr.path[0]
             ft = dict(self.ty.struct_fields(ptr.b))[fname]
@@ -218,7 +232,7 @@ class FuncRun(ExprMixin, InstrMixin, CallMixin):
         flat = self.ty.flatten(val, tn)
         for (p, s, lt), v in zip(self.ty.leaves(tn), flat):
             name = self.leaf_name(pre, p)
-            self.record_write(('heap', name))
+            self.record_write(('heap', name), keys[0])
             if len(keys) == 1:
                 arr = self.heap_get(state, name, T.ARR(T.INT, s))
                 state.heap[name] = T.store(arr, keys[0], v)
@@ -281,13 +295,13 @@ class FuncRun(ExprMixin, InstrMixin, CallMixin):
     def map_update(self, state, m, tn, key, val):
         md, mv, et = self.map_names(tn)
         arr = self.heap_get(state, md, T.ARR(T.INT, T.AIB))
-        self.record_write(('heap', md))
+        self.record_write(('heap', md), m)
         state.heap[md] = T.store(arr, m, T.store(T.select(arr, m), key, T.TRUE))
         flat = self.ty.flatten(val, et)
         for (p, s, lt), v in zip(self.ty.leaves(et), flat):
             name = mv if not p else mv + '|' + '.'.join(p)
             a2 = self.heap_get(state, name, T.ARR(T.INT, T.ARR(T.INT, s)))
-            self.record_write(('heap', name))
+            self.record_write(('heap', name), m)
             state.heap[name] = T.store(a2, m, T.store(T.select(a2, m), key, v))
 
     def fresh_ref(self, prefix='ref'):
@@ -357,7 +371,7 @@ class FuncRun(ExprMixin, InstrMixin, CallMixin):
             if all(v == v0 for _, v in vals[1:]):
                 out.heap[k] = v0
             else:
-                out.heap[k] = self.merge_values(vals, 'hm')
+                out.heap[k] = self.merge_values(vals, 'hm|' + k)
         vol = frozenset()
         for s in states:
             vol = vol | s.volatile
@@ -513,9 +527,13 @@ class FuncRun(ExprMixin, InstrMixin, CallMixin):
         #    over-approximates every loop-head state, so the writes seen from it are all the writes there are.
         writes = set()
         order = [b for b in cfg.order if b in body]
+        keys_found = {}
         for _round in range(8):
             found = set()
+            keys_found = {}
+            serial0 = T.counter_peek()
             self.recorders.append(found)
+            self.key_recorders.append(keys_found)
             self.mute += 1
             try:
                 dry = st.copy()
@@ -532,6 +550,7 @@ class FuncRun(ExprMixin, InstrMixin, CallMixin):
             finally:
                 self.mute -= 1
                 self.recorders.pop()
+                self.key_recorders.pop()
             if found <= writes:
                 break
             writes |= found
@@ -541,6 +560,31 @@ class FuncRun(ExprMixin, InstrMixin, CallMixin):
                 writes.add(('cell', k))
         for r in self.recorders:
             r.update(writes)
+        # heap components written only at keys that are stable across iterations (terms over values the loop does
+        # not change) are havoced at those keys only; everything else of the component is framed
+        stable_keys = {}
+        for name, ks in keys_found.items():
+            if ks is None or ('heapall', None) in writes:
+                continue
+            ok = True
+            for k in ks:
+                for vn in T.free_vars(k):
+                    if T.var_serial(vn) >= serial0:
+                        ok = False
+                        break
+                if not ok:
+                    break
+            if ok and len(ks) <= 6:
+                stable_keys[name] = sorted(ks, key=repr)
+        for kr in self.key_recorders:
+            for name, ks in keys_found.items():
+                if name in stable_keys and kr.get(name, set()) is not None:
+                    cur = kr.get(name, set())
+                    cur.update(stable_keys[name])
+                    kr[name] = cur
+                else:
+                    kr[name] = None
+        ctx['stable_keys'] = stable_keys
         # 2. invariants: init
         invs = list(lspec.invariants) if lspec else []
         auto = self.auto_invariants(ctx, header, st, writes)
@@ -553,7 +597,7 @@ class FuncRun(ExprMixin, InstrMixin, CallMixin):
                 self.elab_fail('loop %d invariant %r: %s' % (n, c.text, e), c)
         # 3. havoc
         h = st.copy()
-        self.apply_havoc(h, writes, 'lp')
+        self.apply_havoc(h, writes, 'lp', stable_keys)
         # 4. assume invariants
         env1 = self.make_env(ctx, h, header)
         assumed = []
@@ -585,7 +629,7 @@ class FuncRun(ExprMixin, InstrMixin, CallMixin):
             self.cover('loop%d-head' % n, h)
         return h
 
-    def apply_havoc(self, h, writes, prefix):
+    def apply_havoc(self, h, writes, prefix, stable_keys=None):
         if ('heapall', None) in writes:
             self.havoc_all_heap(h)
         for kind, key in sorted(writes, key=repr):
@@ -604,7 +648,14 @@ class FuncRun(ExprMixin, InstrMixin, CallMixin):
                         pass
             elif kind == 'heap':
                 cur = self.heap_get(h, key, None)
-                h.heap[key] = T.fresh('%s|%s' % (prefix, key), T.sort_of(cur))
+                srt = T.sort_of(cur)
+                if stable_keys and key in stable_keys and ('heapall', None) not in writes:
+                    arr = cur
+                    for kterm in stable_keys[key]:
+                        arr = T.store(arr, kterm, T.fresh('%s|%s@' % (prefix, key), srt[2]))
+                    h.heap[key] = arr
+                else:
+                    h.heap[key] = T.fresh('%s|%s' % (prefix, key), srt)
 
     def try_auto(self, mk, env):
         try:
